@@ -3,7 +3,21 @@
    src/client/mod.rs (set_client_to_connecting, verify_client_connected, set_client_to_disconnected),
    src/client/receiver.rs (FinishedInitialSync => InitialSyncFinished), src/server/initial_sync.rs.
    Everything is quantified over all executable orders, all oracles and all application
-   operations.  Frame lemmas: SessionLemmas.v. *)
+   operations.  Frame lemmas: SessionLemmas.v.
+
+   1. client_state_path, client_never_skips_connecting
+   2. connected_only_after_transport_connected
+   3. client_back_to_disconnected_within_two_frames, server_state_tracks_hosting, and on reachable
+      states client_removal_noticed, hosting_published, hosting_end_published;
+      existed_bit_invariant_statement is FALSE: existed_bit_invariant_refuted (stuck_connecting),
+      existed_bit_invariant_partial holds for runs whose frames do not change the client
+      transport in the middle of the schedule
+   4. acts_only_when_connected, acts_implies_connected, chain_idle_frame
+   5. finished_event_sources, client_poll_fifo, finished_event_once_per_join,
+      send_initial_sync_batch, deliver_out_inbox, frame_cmdq_empty, client_poll_handles,
+      finished_implies_snapshot_applied
+   6. examples (vm_compute); S8_connected_while_renet_disconnected,
+      connected_implies_renet_connected_refuted; cond_key_collision (model artefact) *)
 From stdpp Require Import gmap list.
 From Coq Require Import NArith Lia.
 From RecordUpdate Require Import RecordSet.
@@ -236,11 +250,6 @@ Proof.
   - apply pos_spec_id; reflexivity.
 Qed.
 
-Ltac spec_fin :=
-  split; cbn;
-  [ reflexivity | reflexivity | reflexivity | reflexivity | reflexivity | reflexivity | reflexivity
-  | reflexivity | reflexivity | .. ].
-
 Lemma clock_le_2 pr pr' k1 k2 :
   p_tick pr' = p_tick pr + 1 + 1 ->
   p_last_run pr' = <[k2 := p_tick pr + 1]> (<[k1 := p_tick pr]> (p_last_run pr)) -> clock_le pr pr'.
@@ -258,9 +267,6 @@ Ltac spec_goal :=
   first [ reflexivity | assumption | congruence | (split; cbn; [lia | intros; auto]; fail) | (eapply clock_le_insert; reflexivity)
         | (eapply clock_le_2; reflexivity)
         | (intros; cbn; rewrite ?lookup_insert_ne by (unfold ckey in *; cbn in *; congruence); reflexivity) ].
-
-Ltac atoms pr :=
-  destruct (n_setup pr) eqn:?; destruct (s_client pr) eqn:?; destruct (s_server pr) eqn:?.
 
 Lemma run_system_spec_clidisconnected pr o :
   p_panic pr = None -> pos_spec pr SCliDisconnected (run_system pr SCliDisconnected o).
@@ -1897,6 +1903,16 @@ Example gate_closed :
   server_gate demo_client = false /\ client_gate demo_client = true
   /\ run_system demo_client SSrvPoll o_idle = demo_client.
 Proof. vm_compute. repeat split. Qed.
+
+(* Model artefact behind order_keys_ok: the last-run table is keyed by sys_key for systems and by
+   sys_key + 5000 for conditions, and sys_key (SApp 3010) = sys_key (SDetect 4010) = 5010: such a
+   system overwrites the last evaluation tick of server_connected's resource_added condition, and
+   the host is never published as Connected. *)
+Example cond_key_collision :
+  sys_key (SApp 3010) = ckey (sys_key SSrvConnected)
+  /\ let p0 := init_peer 0 [] [] (SApp 3010 :: demo_order) in
+     s_server (prun p0 [inl (OSetup true 0); inr o_idle; inr o_idle; inr o_idle]) = SrvDisconnected.
+Proof. vm_compute. split; reflexivity. Qed.
 
 Print Assumptions client_state_path.
 Print Assumptions connected_only_after_transport_connected.
